@@ -298,7 +298,162 @@ def v_apfl_global(p):
 
 
 def verify_fedavg_round_apfl(p):
-  pass  # the APFL round skeleton is the FedAvg skeleton plus the per-client state table (C10 frame, C17 apfl.keys)
+  """APFL's apply: the FedAvg skeleton (every client weighted by its example count in the mean of the deltas, one server
+  step, one diagnostics entry per client) plus the per-client state table: the new table is a COPY of the old one with exactly
+  the entries of this round's clients written (old keys ++ ids of the cohort), the old table is only read."""
+  ex = p.extract(AP, 'adaptive_personalized_federated_learning.<locals>.apply')
+  ex_up = p.extract(AP, 'adaptive_personalized_federated_learning.<locals>.server_update')
+  seq = z3.Const('clients', ClientSeq)
+  n = z3.Length(seq)
+  hp = z3.Const('client_batch_hparams', HpT)
+  j0 = z3.Int('j0')
+  pval = z3.Real('server_params_at_c')
+  ptid = z3.Const('server_params', TreeId)
+  ost = z3.Const('server_opt_state', OptStateT)
+  old_keys = z3.Const('old_client_state_ids', z3.SeqSort(I))
+  holder, record = {}, {}
+
+  class StV(Val):
+    """an opaque per-client state"""
+    def __init__(self, what):
+      self.what = what
+
+  class TableCell(SymDictCell):
+    pass
+
+  class TableV(Val):
+    """server_state.client_states of the INPUT state: read-only here (an immutable value: any store raises Unsupported)."""
+    def method(self, ctx, name, args, kwargs):
+      if name == 'get' and len(args) == 2:
+        return StV(('get', args[0], args[1]))
+      raise Unsupported(f'client_states.{name}')
+
+    def dict_copy(self, ctx):
+      c = TableCell()
+      c.keys = old_keys
+      c.label = 'client_states (copy)'
+      record['copy'] = ctx.alloc(c)
+      return record['copy']
+
+  class OutV(Val):
+    def __init__(self, c, w):
+      self.c, self.w = c, w
+
+    def getitem(self, ctx, k):
+      if k == 'delta_params':
+        return new_tree(holder['ctx'], DELTA(self.c, self.w), label='client delta')
+      if k == 'state':
+        return StV(('trained', self.c))
+      raise Unsupported(f'client_output[{k!r}]')
+
+  def c_train(ctx, shared, clients):
+    ok = isinstance(clients, MappedClientsV) and clients.seq.eq(seq) and isinstance(clients.value, tuple) \
+        and len(clients.value) == 3
+    ctx.oblige('apply.clients', ok, detail='every input client is handed to for_each_client as (id, batches, client input)')
+    if not ok:
+      raise PathDead()
+    cid, batches, cin = clients.value
+    c = seq[clients.idx]
+    items = dict(cin.cell(ctx).items) if isinstance(cin, Ref) and hasattr(cin.cell(ctx), 'items') else {}
+    key, st0 = items.get('rng'), items.get('state')
+    okb = is_z3(cid) and isinstance(batches, BatchesV) and isinstance(key, KeyV) and isinstance(st0, StV) and \
+        st0.what[0] == 'get' and is_z3(st0.what[1]) and isinstance(st0.what[2], StV) and st0.what[2].what == 'default'
+    ctx.oblige('apply.triple', okb and z3.simplify(z3.And(
+        cid == CID(c), batches.term == SRB(CDS(c), hp), key.term == CKEY(c), st0.what[1] == CID(c))),
+        detail="each client trains on ITS OWN batch stream (the algorithm's client hparams) with ITS OWN key, starting from "
+               'ITS OWN table entry (or the default state)')
+    record['shared'] = shared
+    w = tree_tid(ctx, shared)
+    return SeqV(seq, Codec(ClientT, dec=lambda t: (CID(t), OutV(t, w))))
+
+  g = real_globals()
+  g['tree_util'] = SrcModule(TU, {'tree_l2_norm': Handler(lambda ctx, t: new_tree(ctx, ctx.fresh('norm', 'real')), 'tree_l2_norm')})
+  sopt = OptimizerV(z3.Const('server_optimizer', OptimizerT))
+  g['server_optimizer'] = sopt
+  g['client_batch_hparams'] = HpV(hp)
+  g['client_coefficient'] = z3.Real('client_coefficient')
+  g['ClientState'] = Handler(lambda ctx, *a, **k: StV('default'), 'ClientState')
+  g['train_for_each_client'] = Handler(c_train, 'train_for_each_client')
+  g['server_update'] = ex_up.funcv()
+  eng = Engine(g)
+  eng.sources = [AP]
+  eng.on_empty_dict = lambda ctx: ctx.alloc(SymDictCell())
+
+  def inv(s):
+    k = to_z3(s.it)
+    ds = tree_val(s.ctx, s.raw('delta_params_sum'))
+    ns = to_z3(s['num_examples_sum'])
+    keys = s.raw('client_diagnostics').cell(s.ctx).keys
+    tk = s.raw('client_states').cell(s.ctx).keys
+    m0 = z3.Length(old_keys)
+    return dict(
+        pos=z3.And(0 <= k, k <= n),
+        sums=z3.And(ds == DSUM(seq, ptid, k), ns == NSUM(seq, k), NSUM(seq, k) >= 0),
+        diag=z3.And(z3.Length(keys) == k, z3.Implies(z3.And(0 <= j0, j0 < k), keys[j0] == CID(seq[j0]))),
+        table=z3.And(z3.Length(tk) == m0 + k, z3.SubSeq(tk, 0, m0) == old_keys,
+                     z3.Implies(z3.And(0 <= j0, j0 < k), tk[m0 + j0] == CID(seq[j0]))))
+
+  loops = {0: Loop(inv=inv, expect='train_for_each_client', hints=lambda s: [sum_unfold(seq, ptid, to_z3(s.it))])}
+
+  def body(ctx):
+    holder['ctx'] = ctx
+    record.clear()
+    del sopt.calls[:]
+    ctx.model_vars.update(n_clients=n)
+    ctx.assume(z3.And(DSUM(seq, ptid, 0) == 0, NSUM(seq, 0) == 0))
+    sp = new_tree(ctx, pval, 'param', 'server_state.params', tid=ptid)
+    SS = eng._resolve_in(ctx, AP, 'ServerState')[0]
+    eng.globals['ServerState'] = SS
+    table = TableV()
+    st = ctx.alloc(ObjCell(SS, dict(params=sp, opt_state=OptStV(ost), client_states=table), owner='param', label='server_state'))
+    kind, r = eng.run_function(ctx, ex.funcv(loops=loops), [st, ClientsV(seq)])
+    ctx.oblige('apply.noraise', kind == 'return')
+    if kind != 'return':
+      return
+    ok = isinstance(r, tuple) and len(r) == 2 and isinstance(r[0], Ref) and isinstance(r[0].cell(ctx), ObjCell)
+    ctx.oblige('apply.shape', ok, detail='returns (ServerState, diagnostics)')
+    if not ok:
+      return
+    ctx.oblige('apply.shared', record.get('shared') is sp, detail='clients start from the server parameters')
+    ctx.oblige('apply.server.once', len(sopt.calls) == 1, detail='the server optimizer is applied exactly once per round')
+    if len(sopt.calls) != 1:
+      return
+    gr, s_, p_ = sopt.calls[0]
+    N = NSUM(seq, n)
+    mean = z3.If(N > 0, DSUM(seq, ptid, n) / N, 0)
+    ctx.oblige('apply.post', z3.And(tree_val(ctx, gr) == mean) if (p_ is sp and isinstance(s_, OptStV) and s_.term.eq(ost))
+               else False,
+               detail='the global model takes a server step on sum(n_i * delta_i) / sum(n_i) over ALL clients of the round (a '
+                      'client with examples and a zero update keeps its weight): the FedAvg mean')
+    f = r[0].cell(ctx).fields
+    new_p, new_s, new_t = f.get('params'), f.get('opt_state'), f.get('client_states')
+    okf = isinstance(new_p, Ref) and isinstance(new_s, OptStV)
+    ctx.oblige('apply.rounds', okf and r[0].addr != st.addr, detail='the result is a fresh well-formed ServerState')
+    if okf:
+      ctx.oblige('apply.state', z3.And(tree_val(ctx, new_p) == OPT_P(sopt.term, mean, ost, pval),
+                                       new_s.term == OPT_S(sopt.term, tree_tid(ctx, gr), ost, ptid)),
+                 detail='new params / opt state are exactly what the server optimizer returned')
+    okt = isinstance(new_t, Ref) and isinstance(new_t.cell(ctx), TableCell) and record.get('copy') is not None and \
+        new_t.addr == record['copy'].addr
+    ctx.oblige('apfl.table.copy', okt, detail="the new state's table is the copy made in this call (the old table is only read)")
+    if okt:
+      tk = new_t.cell(ctx).keys
+      m0 = z3.Length(old_keys)
+      ctx.oblige('apfl.table.keys', z3.And(z3.Length(tk) == m0 + n, z3.SubSeq(tk, 0, m0) == old_keys,
+                                            z3.Implies(z3.And(0 <= j0, j0 < n), tk[m0 + j0] == CID(seq[j0]))),
+                 detail='keys written = old keys followed by exactly the ids of this round\'s clients: state is stored only for '
+                        'clients that have participated')
+    d = r[1]
+    okd = isinstance(d, Ref) and isinstance(d.cell(ctx), SymDictCell)
+    ctx.oblige('apply.diag.type', okd)
+    if okd:
+      keys = d.cell(ctx).keys
+      ctx.oblige('apply.diag.one', z3.And(z3.Length(keys) == n, z3.Implies(z3.And(0 <= j0, j0 < n), keys[j0] == CID(seq[j0]))),
+                 detail='exactly one diagnostics entry per participating client')
+    old = st.cell(ctx).fields
+    ctx.oblige('frame.state', old['params'] is sp and sp.cell(ctx).valid and sp.cell(ctx).val.eq(pval) and
+               old['client_states'] is table, detail="the caller's server state is neither modified nor donated")
+  p.verify('apfl.apply', eng, body)
 
 
 REG_SINKS = ('models.grad', 'models.model_grad', 'models.AverageLossEvaluator')   # library constructors taking a regularizer
